@@ -111,6 +111,14 @@ def run(e: Engine, rep: Report):
              'is done to the finished output is done to the failed '
              'recipient, the sender and the quoted reply as well')
     b15_b16(e, rep)
+    rep.rule('B17', 'who is named in a bounce is decided before the message '
+             'is settled in storage: below Queue._handle_partial_relay no '
+             'recipient is looked up by position (envelope.recipients[i], '
+             '.index()) once set_recipients_delivered may have run - a '
+             'backend that keeps the queue\'s own envelope object (the '
+             'in-memory store) strikes the settled recipients off that very '
+             'list, and the positions then select other people')
+    b17(e, rep)
 
 
 def b5(e: Engine, rep: Report):
@@ -1446,3 +1454,68 @@ def b15_b16(e: Engine, rep: Report):
         rep.ok('B16', 'slimta.util.bytesformat.BytesFormat',
                'no rewriting operation in the rendering methods',
                reason='%d methods scanned' % k, nontrivial=False)
+
+
+# ---------------------------------------------------------------------- B17
+def b17(e: Engine, rep: Report):
+    ctx = e.method_ctx(QUEUE, '_handle_partial_relay')
+    g = e.build(ctx, inline=e.inline_same_self(
+        deny=['_bounce', '_pool_spawn', '_add_queued', '_remove']),
+        max_depth=3, raises=lambda b, n, r: set())
+    where = ctx.func.qname
+    rep.functions.add(where)
+    settle = [n for n in g.calls()
+              if e.call_name(n) == 'set_recipients_delivered']
+    if not settle:
+        rep.error('anchor vanished: set_recipients_delivered below '
+                  '_handle_partial_relay')
+        return
+    before = dataflow.may_events_before(
+        g, lambda n: ['settled'] if n in settle else [])
+
+    def by_position(x):
+        for y in ast.walk(x):
+            if isinstance(y, ast.Subscript) and \
+                    isinstance(y.value, ast.Attribute) and \
+                    y.value.attr == 'recipients' and \
+                    not isinstance(y.slice, ast.Slice) and \
+                    isinstance(y.ctx, ast.Load):
+                return y
+            if isinstance(y, ast.Call) and \
+                    isinstance(y.func, ast.Attribute) and \
+                    y.func.attr == 'index' and \
+                    isinstance(y.func.value, ast.Attribute) and \
+                    y.func.value.attr == 'recipients':
+                return y
+        return None
+    n = 0
+    seen = set()
+    for nd in g.nodes:
+        if nd.kind not in ('stmt', 'call', 'branch', 'return', 'nop') or \
+                nd.ast is None or isinstance(nd.ast, (
+                    ast.For, ast.While, ast.If, ast.Try, ast.With,
+                    ast.FunctionDef)):
+            continue
+        y = by_position(nd.ast)
+        if y is None or (id(y), id(nd.frame)) in seen:
+            continue
+        seen.add((id(y), id(nd.frame)))
+        n += 1
+        rep.evaluations += 1
+        late = 'settled' in (before.get(nd.id) or ())
+        rep.check(not late, 'B17', where,
+                  '`%s` reads positions before the store is told'
+                  % ' '.join(ast.unparse(y).split())[:40],
+                  '`%s` looks a recipient up by position on a path on which '
+                  'set_recipients_delivered has already run: the in-memory '
+                  'store removes the settled recipients from the envelope '
+                  'object the queue holds, so position i is now somebody '
+                  'else - the bounce names a recipient that was deferred '
+                  '(or delivered) and the rejected one is never reported'
+                  % ' '.join(ast.unparse(y).split())[:60],
+                  loc=nd.loc(), reason='no set_recipients_delivered on any '
+                  'path to it')
+    if n < 1:
+        rep.ok('B17', where, 'no positional look-up of recipients below '
+               '_handle_partial_relay', reason='recipients are carried by '
+               'value', nontrivial=False)
